@@ -1219,6 +1219,12 @@ fn gen_c04(rng: &mut Rng, r: u64) -> Value {
             prelude.push(json!({"k":"api","op":"remove","key":0,"bin":"sync","mode":"sync"}));
         }
     }
+    // sometimes the victim's bucket is already several KiB long (many earlier records with bulky metadata)
+    if rng.chance(1, 5) {
+        for i in 0..rng.range(14, 30) {
+            prelude.push(json!({"k":"api","op":"write","entry":"opts","key":0,"val":1,"opts":{"time":(10 + i).to_string(),"meta":{"pad":"p".repeat(260)}},"bin":"sync","mode":"sync"}));
+        }
+    }
     let mut v = match rng.below(5) {
         0 => json!({"k":"api","op":"remove","key":0}),
         1 => json!({"k":"api","op":"remove_opts","fully":false,"key":0}),
@@ -1301,6 +1307,14 @@ fn gen_c15(rng: &mut Rng, _r: u64) -> Value {
             1 => json!({"k":"env","act":"truncate_frac","content":{"val":0,"algo":"sha256"},"num":rng.below(1000)}),
             _ => json!({"k":"env","act":"extend","content":{"val":0,"algo":"sha256"},"n":4,"seed":9}),
         });
+    }
+    // sometimes one key already has a long history (dozens of records in its bucket)
+    if rng.chance(1, 6) {
+        let fp = *rng.pick(&PURE);
+        for i in 0..rng.range(66, 90) {
+            prelude.push(json!({"k":"api","op":"write","entry":"opts","key":1,"val":(i % 2),"opts":{"time":i.to_string()},"bin":fp.0,"mode":fp.1}));
+        }
+        steps.push(json!({"k":"api","op":*rng.pick(&["metadata","read","list"]),"key":1,"mode":f.1}));
     }
     // a file outside the cache that gets linked in: removals must never follow the link
     let link = rng.chance(1, 3);
